@@ -8,6 +8,7 @@ import NextestModel.Lemmas.System
 import NextestModel.Thm.C07
 import NextestModel.Thm.C02
 import NextestModel.Model.Dispatcher
+import NextestModel.Model.Unit
 import NextestModel.Gen.Tables
 namespace NextestModel.C10
 open NextestModel.Dispatcher
@@ -655,5 +656,28 @@ theorem cancelled_dispatcher_refuses_retries (p : Classify.Policy) (env : Attemp
   · cases Nat.lt_or_ge k k0 with
     | inl hlt => exact hlt
     | inr hge => rw [hrefuse k hge] at h2; cases h2
+
+/-! ## A unit between attempts leaves its delay on cancellation: the source's arms are the model's -/
+
+open NextestModel.Unit in
+/-- **the arms of `handle_delay_between_attempts` that end the delay, as read from executor.rs on this run, are the unit model's**:
+    a shutdown request and a cancellation for another reason each `break` out of the delay at once, whatever is left of it —
+    the executor half of "the run ends rather than sitting out retry delays" (the dispatcher half: `no_delay_sat_out`) -/
+theorem delay_ending_arms_are_the_models (c : Unit.Cfg) (u : Unit.U) (hp : u.phase = .delay) :
+    (∀ sr, interpArm applyDelay guardDelay Gen.delayShutdownArm u = Unit.onReq c u (.shutdown sr)) ∧
+    interpArm applyDelay guardDelay Gen.delayOtherCancelArm u = Unit.onReq c u .otherCancel := by
+  obtain ⟨ph, sw, is_, gs, ws, ds, ls, lsp, hits, slow, to, lk⟩ := u
+  simp only at hp
+  subst hp
+  refine ⟨?_, ?_⟩
+  · intro sr
+    unfold Gen.delayShutdownArm
+    simp only [Unit.onReq, interpArm, List.foldl]
+    simp only [guardDelay, applyDelay]
+    simp (config := { decide := true })
+  · unfold Gen.delayOtherCancelArm
+    simp only [Unit.onReq, interpArm, List.foldl]
+    (try simp only [guardDelay, applyDelay])
+    simp (config := { decide := true })
 
 end NextestModel.C10
